@@ -22,6 +22,13 @@ CLAIMED = {
    note="Schedules are not explored: atomic.AddInt64/LoadInt64 linearisability is an assumed axiom; the racing variant models interference by havocking the counter before every atomic access. "
         "Set.prune/Set.Current (listing after exhaustion) are not under contract yet. "+TRUST,
    design="4/C18"),
+ "C10": dict(
+   text="Deductive proof of the sequential obligations the no-lost-wake-up protocol rests on. W1: actions.WakePublishListeners wakes (closes the one-shot channel of) and unregisters every "
+        "waiter of every listed subscription and never loses a registered waiter (nested loops over the registry with inductive invariants, all registry contents, unbounded). "
+        "This obligation refuted the pinned code (early return at the first subscription without waiters; replayed, fixed by commit 5047f79).",
+   note="The interleaving theorem (register-before-query + wake-after-commit => no lost wake-up) is a paper argument in DESIGN.md, not machine-checked; 'promptly' is not quantified. "
+        "Hooks registered through AddPublishHook are assumed not to touch the waiter registry. "+TRUST,
+   design="4/C10"),
 }
 REASONS = {}
 def reason(pid):
